@@ -1,0 +1,39 @@
+//go:build verif
+
+package retry
+
+import (
+	"time"
+
+	"github.com/obolnetwork/charon/app/expbackoff"
+)
+
+// Verification hooks (build tag verif): read-only views, no behaviour.
+
+// VerifActive returns a copy of the retryer's map of active DoAsync calls (label -> count).
+func (r *Retryer[T]) VerifActive() map[string]int {
+	r.mu.Lock()
+	defer r.mu.Unlock()
+
+	out := make(map[string]int, len(r.active))
+	for k, v := range r.active {
+		out[k] = v
+	}
+
+	return out
+}
+
+// VerifBackoffConfig returns the backoff configuration used by New.
+func VerifBackoffConfig() expbackoff.Config {
+	return backoffConfig
+}
+
+// VerifDelayForIteration exposes delayForIteration (includes the random jitter).
+func VerifDelayForIteration(iteration int) time.Duration {
+	return delayForIteration(iteration)
+}
+
+// VerifIsTemporaryBeaconErr exposes isTemporaryBeaconErr.
+func VerifIsTemporaryBeaconErr(err error) bool {
+	return isTemporaryBeaconErr(err)
+}
